@@ -36,7 +36,10 @@ class Bg:
                 self.e = e
         self.th = threading.Thread(target=work)
         self.th.start()
-        while ctx._tlc_n == n0 and self.th.is_alive():     # its scratch directory number is taken
+        # ctx.tlc numbers its scratch directories with a counter: do not let the caller start the
+        # next run before this one has created its directory
+        mine = os.path.join(ctx.scratch, "tlc%d" % (n0 + 1))
+        while not os.path.isdir(mine) and self.th.is_alive():
             time.sleep(0.01)
 
     def join(self, ctx):
